@@ -5,7 +5,10 @@ import Splipy.Lemmas.C14Spec
 import Splipy.Lemmas.C14Through
 import Splipy.Lemmas.C14LsqGrid
 import Splipy.Lemmas.C14Loft
+import Splipy.Lemmas.C14Bezier
 import Mathlib.Data.Rat.Floor
+import Mathlib.Tactic.IntervalCases
+import Mathlib.Tactic.NormNum
 
 /-!
 # C14 — interpolating and fitting factories reproduce their data
@@ -398,6 +401,69 @@ theorem C14_loft_curves (b1 bL : Basis K) (tol : K) (secs : List (Tensor K)) (di
                     refine ⟨r1, fun i hi a ha c hc => ?_⟩
                     rw [← r2 i hi a ha c hc]
                     exact sum_congr rfl (fun j _ => by rw [get_colloc bL tol v 0 i j (by omega)])
+
+/-- **`bezier`**: the result has the requested order (3 or 4), is non-periodic, has exactly as many
+basis functions as control points, its knot vector is the SORTED rearrangement of
+`list(range(n+1))·(p−1) + [0, n]` (every interior integer `p−1` times — C⁰ joints — the two ends `p`
+times), and the control points are the input points (`relative=False`) resp. their running sums
+(`relative=True`: `cps[0] = pts[0]`, `cps[i+1] = cps[i] + pts[i+1]`).  (That the curve is the Bézier
+curve of each group of `p` control points is checked by the de Casteljau oracle.) -/
+theorem C14_bezier (tol : K) (pts : Mat K) (quadratic relative : Bool) (b : Basis K) (cps : Mat K)
+    (h : bezier tol pts quadratic relative = .ok (b, cps)) :
+    b.order = (if quadratic then 3 else 4) ∧ b.periodic = -1 ∧ b.numFunctions = cps.size ∧
+    b.knots.toList.Perm (bezierKnotList (if quadratic then 3 else 4)
+        ((pts.size - 1) / ((if quadratic then 3 else 4) - 1))) ∧
+    b.knots.toList.Pairwise (· ≤ ·) ∧
+    (relative = false → cps = pts) ∧
+    (relative = true → 0 < pts.size → cps.size = pts.size ∧ cps.getD 0 #[] = pts.getD 0 #[] ∧
+      ∀ i, i + 1 < pts.size → cps.getD (i + 1) #[] = rowAdd (cps.getD i #[]) (pts.getD (i + 1) #[])) := by
+  obtain ⟨sp1, sp2⟩ := sortK_spec (bezierKnotList (K := K) (if quadratic then 3 else 4)
+    ((pts.size - 1) / ((if quadratic then 3 else 4) - 1)))
+  unfold bezier at h
+  cases relative with
+  | false =>
+    simp only [bind, Except.bind, pure, Except.pure, Bool.false_eq_true, if_false] at h
+    split at h
+    · exact absurd h (by simp)
+    · rename_i b' hb
+      obtain ⟨ho, hk, hper, _⟩ := Basis.mk?_ok_c14 _ _ _ _ _ hb
+      split at h
+      · exact absurd h (by simp [throw, throwThe, MonadExceptOf.throw])
+      · rename_i hsz
+        simp only [Except.ok.injEq, Prod.mk.injEq] at h
+        obtain ⟨hb', hcps⟩ := h
+        subst hb'
+        refine ⟨ho, by rw [hper]; rfl, by rw [← hcps]; omega, by rw [hk]; simpa using sp1,
+          by rw [hk]; simpa using sp2, fun _ => hcps.symm, fun hr => absurd hr (by simp)⟩
+  | true =>
+    simp only [bind, Except.bind, pure, Except.pure, if_true] at h
+    split at h
+    · exact absurd h (by simp)
+    · rename_i b' hb
+      obtain ⟨ho, hk, hper, _⟩ := Basis.mk?_ok_c14 _ _ _ _ _ hb
+      split at h
+      · exact absurd h (by simp [throw, throwThe, MonadExceptOf.throw])
+      · rename_i hsz
+        simp only [Except.ok.injEq, Prod.mk.injEq] at h
+        obtain ⟨hb', hcps⟩ := h
+        subst hb'
+        refine ⟨ho, by rw [hper]; rfl, by rw [← hcps]; omega, by rw [hk]; simpa using sp1,
+          by rw [hk]; simpa using sp2, fun hr => absurd hr (by simp), fun _ hpos => ?_⟩
+        rw [← hcps]
+        have hinit : 0 < (pts.extract 0 1).size := by simp; omega
+        obtain ⟨f1, f2, f3⟩ := foldl_push_spec (fun prev row => rowAdd prev row) (#[] : Array K)
+          (pts.toList.drop 1) (pts.extract 0 1) hinit
+        have hs1 : (pts.extract 0 1).size = 1 := by simp; omega
+        rw [hs1] at f1 f2 f3
+        have hlen : (pts.toList.drop 1).length = pts.size - 1 := by simp
+        refine ⟨by rw [f1, hlen]; omega, ?_, fun i hi => ?_⟩
+        · rw [f2 0 (by omega)]
+          simp [Array.getD, hpos]
+        · have := f3 i (by rw [hlen]; omega)
+          rw [show 1 + i = i + 1 by omega, show i + 1 - 1 = i by omega] at this
+          rw [this]
+          congr 1
+          simp [List.getD_eq_getElem?_getD, Array.getD, hi]
 
 omit [Field K] [LinearOrder K] [FloorRing K] in
 private theorem getD_extract_c14 {α : Type} (a : Array α) (s len j : ℕ) (d : α) (hj : j < len) :
@@ -821,6 +887,42 @@ theorem C14_interpolate_curve_evaluate {b : Basis K} (hv : b.Valid) {tol : K} (h
   simp only
   rw [get_matTensor c c.size c.ncols l j (by rw [hcsize]; exact mem_range.mp hl) hj]
 
+/-- **Surface interpolation in specification terms.**  With valid bases and admissible grid
+parameters, the control net returned by the loop of `surface_factory.interpolate` satisfies
+`Σ_a Σ_b N_a(u_i) · M_b(v_j) · cp[a][b] = x[i][j]` with `N`, `M` the B-splines of the specification
+(`Basis.specRow`, C01/C02) — for arbitrary non-square shapes and both input layouts. -/
+theorem C14_interpolate_surface_spec {bu bv : Basis K} (hvu : bu.Valid) (hvv : bv.Valid) {tol : K}
+    (htol : 0 < tol) (u : Option (List (List K))) (tu tv : List K) (x cp : Tensor K)
+    (hp : gridParams [bu, bv] u = .ok [tu, tv]) (htu : tu ≠ []) (htv : tv ≠ [])
+    (hx : x.shape.length = 2 ∨ x.shape.length = 3)
+    (hau : ∀ i < tu.length, bu.Admissible tol (tu.getD i 0))
+    (hav : ∀ j < tv.length, bv.Admissible tol (tv.getD j 0))
+    (h : interpolateGridCore [bu, bv] tol u x = .ok cp) :
+    ∃ (x' : Tensor K) (d : ℕ), gridInput [bu, bv] x = .ok x' ∧ x'.data = x.data ∧
+      x'.shape = [tu.length, tv.length, d] ∧ cp.shape = [bu.numFunctions, bv.numFunctions, d] ∧
+      ∀ i < tu.length, ∀ j < tv.length, ∀ k < d,
+        ∑ a ∈ range bu.numFunctions, bu.specRow (tu.getD i 0) a *
+          ∑ b ∈ range bv.numFunctions, bv.specRow (tv.getD j 0) b * cp.entry3 bv.numFunctions d a b k
+          = x'.entry3 tv.length d i j k := by
+  obtain ⟨x', d, h1, h2, h3, h4, _, h5, h6, h7⟩ := C14_interpolate_surface bu bv tol u tu tv x cp hp htu htv hx h
+  refine ⟨x', d, h1, h2, h3, by rw [h4, h5, h6], fun i hi j hj k hk => ?_⟩
+  rw [← h7 i hi j hj k hk]
+  have hNu : (colloc bu tol tu 0).size = tu.length := size_colloc _ _ _ _
+  have hNv : (colloc bv tol tv 0).size = tv.length := size_colloc _ _ _ _
+  obtain ⟨hs1, he1⟩ := Tensor.applyAxis3_1_c14 (colloc bv tol tv 0) cp h4
+  rw [hNv] at hs1 he1
+  obtain ⟨_, he0⟩ := Tensor.applyAxis3_0_c14 (colloc bu tol tu 0) _ hs1
+  rw [hNu] at he0
+  rw [he0 i hi j hj k hk, ← h5]
+  apply sum_congr rfl
+  intro a ha
+  rw [get_colloc bu tol tu 0 i a hi, evaluate_getD_eq_specRow_c14 hvu htol (hau i hi) (by rw [← h5]; exact mem_range.mp ha),
+    he1 a (mem_range.mp ha) j hj k hk, ← h6]
+  congr 1
+  apply sum_congr rfl
+  intro b hb
+  rw [get_colloc bv tol tv 0 j b hj, evaluate_getD_eq_specRow_c14 hvv htol (hav j hj) (by rw [← h6]; exact mem_range.mp hb)]
+
 /-- **No solvability hypothesis (Schoenberg–Whitney), user parameters.**  Valid clamped non-periodic
 basis of order `p ≥ 2` with interior knot multiplicities `≤ p−1`; `n` exact parameters with
 `t₀ = start`, `t_{n−1} = end`, strictly increasing and nested with the supports
@@ -895,6 +997,28 @@ theorem C14_interpolate_curve_greville_succeeds {b : Basis K} (hv : b.Valid) (hp
     ∃ c, interpolateCurve b tol none x = .ok c :=
   interpolateCurve_ok_greville hv hper hp hc0 hc1 hmult htol hgap x m hxs
 
+/-- **No solvability hypothesis for surfaces at the default Greville parameters.**  For two valid
+clamped continuous non-periodic bases of order ≥ 2 (knot gaps ≥ `2(p−1)·tol`) and a grid of the right
+size in either layout, `surface_factory.interpolate(x, bases)` SUCCEEDS, and the returned control
+net is the one of the linear-algebra core — to which `C14_interpolate_surface(_spec)` applies. -/
+theorem C14_interpolate_surface_greville_succeeds {bu bv : Basis K}
+    (hvu : bu.Valid) (hperu : bu.periodic = -1) (hpu : 2 ≤ bu.order)
+    (hc0u : bu.kn 0 = bu.kn (bu.order - 1))
+    (hc1u : bu.kn bu.numFunctions = bu.kn (bu.numFunctions + (bu.order - 1)))
+    (hmultu : ∀ i, 1 ≤ i → i < bu.numFunctions → bu.kn i < bu.kn (i + (bu.order - 1)))
+    (hvv : bv.Valid) (hperv : bv.periodic = -1) (hpv : 2 ≤ bv.order)
+    (hc0v : bv.kn 0 = bv.kn (bv.order - 1))
+    (hc1v : bv.kn bv.numFunctions = bv.kn (bv.numFunctions + (bv.order - 1)))
+    (hmultv : ∀ i, 1 ≤ i → i < bv.numFunctions → bv.kn i < bv.kn (i + (bv.order - 1)))
+    {tol : K} (htol : 0 < tol)
+    (hgapu : ∀ i j, bu.kn i < bu.kn j → bu.kn i + 2 * ((bu.order - 1 : ℕ) : K) * tol ≤ bu.kn j)
+    (hgapv : ∀ i j, bv.kn i < bv.kn j → bv.kn i + 2 * ((bv.order - 1 : ℕ) : K) * tol ≤ bv.kn j)
+    (x : Tensor K) (d : ℕ)
+    (hx : x.shape = [bu.numFunctions * bv.numFunctions, d] ∨ x.shape = [bu.numFunctions, bv.numFunctions, d]) :
+    ∃ cp, interpolateGrid [bu, bv] tol none x = .ok cp ∧ interpolateGridCore [bu, bv] tol none x = .ok cp :=
+  interpolateGrid_ok_greville_surface hvu hperu hpu hc0u hc1u hmultu hvv hperv hpv hc0v hc1v hmultv htol
+    hgapu hgapv x d hx
+
 end Spec
 
 /-! ## Non-vacuity: the hypotheses are satisfiable (small rational data, evaluated by the kernel) -/
@@ -957,5 +1081,41 @@ example : ∃ r, cubicCurve bTANGENT tolQ 0 (1/100000000) pts3 [0, 1, 2] (some #
   exists_of_isOk (by decide +kernel)
 example : ∃ r, cubicCurve bTANGENTNATURAL tolQ 0 (1/100000000) pts3 [0, 1, 2] (some #[#[1, 0]]) = .ok r :=
   exists_of_isOk (by decide +kernel)
+
+-- C14_interpolate_curve_greville / _nested / _spec: every hypothesis of the Schoenberg–Whitney form
+-- holds for the quadratic example basis, so interpolation at its Greville points provably succeeds
+private theorem bq_valid : bq.Valid where
+  order_pos := by decide
+  size_ge := by decide
+  sorted := by
+    intro i hi
+    have hi' : i + 1 < 7 := hi
+    have hi'' : i < 6 := by omega
+    interval_cases i <;> norm_num [Basis.kn, bq]
+  periodic_ge := by decide
+  periodic_le := by decide
+  start_lt_stop := by norm_num [Basis.start, Basis.stop, Basis.kn, bq]
+  ghosts := fun h => absurd h (by decide)
+
+example : ∃ c, interpolateCurve bq tolQ none pts4 = .ok c ∧
+    ∀ i < bq.numFunctions, ∀ j < c.ncols,
+      splineVal (effSide bq (grevilleAbscissa bq.kn (bq.order - 1) i) true) bq.kn (bq.order - 1) bq.numFunctions
+        (fun l => c.get l j) (grevilleAbscissa bq.kn (bq.order - 1) i) = pts4.get i j := by
+  have hn : bq.numFunctions = 4 := by decide
+  apply C14_interpolate_curve_greville bq_valid (by decide) (by decide)
+    (by norm_num [Basis.kn, bq]) (by rw [hn]; norm_num [Basis.kn, bq])
+    (by
+      intro i h1 h2
+      rw [hn] at h2
+      interval_cases i <;> norm_num [Basis.kn, bq])
+    (by norm_num [tolQ]) _ pts4 2
+  · refine ⟨by rw [hn]; rfl, fun i hi => ?_⟩
+    rw [hn] at hi
+    interval_cases i <;> rfl
+  · intro l hl i hi
+    rw [hn] at hl
+    have hi' : i < 7 := hi
+    interval_cases l <;> interval_cases i <;>
+      norm_num [grevilleAbscissa, grevilleSum, Finset.sum_range_succ, Basis.kn, bq, tolQ, abs_of_nonneg, abs_of_neg]
 
 end NonVacuity
